@@ -71,6 +71,24 @@ func init() {
 		"fmt.Sprintln":                         iFmtSprintln,
 		"fmt.Fprintf":                          iFmtFprintf,
 		"errors.Is":                            nil,
+		"reflect.DeepEqual":                    iDeepEqual,
+		"(reflect.Value).IsNil":                iReflIsNil,
+		"(reflect.Value).IsValid":              iReflIsValid,
+		"(reflect.Value).Interface":            iReflInterface,
+		"(reflect.Value).String":               iReflString,
+		"(reflect.Value).Int":                  iReflInt,
+		"(reflect.Value).Bool":                 iReflBool,
+		"(reflect.Value).NumField":             iReflNumField,
+		"(reflect.Value).Field":                iReflField,
+		"(reflect.Value).Index":                iReflIndex,
+		"(reflect.Value).IsZero":               iReflIsZero,
+		"github.com/mattn/go-runewidth.RuneWidth":            iRuneWidth,
+		"(*github.com/mattn/go-runewidth.Condition).RuneWidth": iRuneWidthM,
+		"(*github.com/mattn/go-runewidth.Condition).StringWidth": iStringWidthM,
+		"github.com/mattn/go-runewidth.CreateLUT":            iCreateLUT,
+		"(*github.com/mattn/go-runewidth.Condition).CreateLUT": iCreateLUT,
+		"strconv.FormatFloat":                  iFormatFloat,
+		"strconv.Quote":                        iStrconvQuote,
 		"sort.Slice":                           iSortSlice,
 		"sort.SliceStable":                     iSortSlice,
 		"sort.Ints":                            iSortInts,
@@ -444,7 +462,7 @@ func (in *Interp) ensureExtInit(fn *ssa.Function) {
 var lazyInitPkgs = map[string]bool{
 	"unicode/utf8": true, "unicode": true, "strconv": true, "strings": true, "bytes": true,
 	"math/bits": true, "sort": true, "slices": true, "unicode/utf16": true, "math": true,
-	"internal/stringslite": true, "path": true, "html": true,
+	"internal/stringslite": true, "path": true, "html": true, "io": true, "bufio": true,
 }
 
 // sync/atomic.Value{v any}: the stored interface value is kept in field 0.
@@ -556,3 +574,331 @@ func iSortInts(in *Interp, fn *ssa.Function, a []Value) Value {
 
 // too large to keep in the per-path snapshot: initialised lazily on first use instead
 var heavyInitPkgs = map[string]bool{"unicode": true, "strconv": true, "html": true, "math": true}
+
+// ---- reflect (more of the subset)
+
+func iReflIsNil(in *Interp, fn *ssa.Function, a []Value) Value {
+	r := a[0].(*ReflV)
+	if r.zero {
+		panic(goPanic{msg: "panic: reflect: call of reflect.Value.IsNil on zero Value", fn: "reflect.Value.IsNil"})
+	}
+	switch v := r.get().(type) {
+	case PtrV:
+		return in.tt.Bool(v.isNil())
+	case SliceV:
+		return in.tt.Bool(v.arr == nil)
+	case *MapV:
+		return in.tt.Bool(v == nil)
+	case FuncV:
+		return in.tt.Bool(v.fn == nil)
+	case IfaceV:
+		return in.tt.Bool(v.t == nil)
+	case *OpaqueV:
+		if v.kind == "chan" {
+			return in.tt.tT
+		}
+	}
+	panic(goPanic{msg: "panic: reflect: call of reflect.Value.IsNil on " + r.typ.String() + " Value", fn: "reflect.Value.IsNil"})
+}
+
+func iReflIsValid(in *Interp, fn *ssa.Function, a []Value) Value {
+	return in.tt.Bool(!a[0].(*ReflV).zero)
+}
+
+func iReflInterface(in *Interp, fn *ssa.Function, a []Value) Value {
+	r := a[0].(*ReflV)
+	if r.zero {
+		panic(goPanic{msg: "panic: reflect: call of reflect.Value.Interface on zero Value", fn: "reflect.Value.Interface"})
+	}
+	if _, isIface := r.typ.Underlying().(*types.Interface); isIface {
+		return r.get()
+	}
+	return IfaceV{t: r.typ, v: r.get()}
+}
+
+func iReflString(in *Interp, fn *ssa.Function, a []Value) Value {
+	r := a[0].(*ReflV)
+	if s, ok := r.get().(StrV); ok && !r.zero {
+		return s
+	}
+	in.unsupported("reflect.Value.String on non-string")
+	return nil
+}
+
+func iReflInt(in *Interp, fn *ssa.Function, a []Value) Value {
+	r := a[0].(*ReflV)
+	if t, ok := r.get().(*Term); ok && !r.zero && t.sort != 0 {
+		return in.tt.Resize(t, 64, true)
+	}
+	in.unsupported("reflect.Value.Int on non-integer")
+	return nil
+}
+
+func iReflBool(in *Interp, fn *ssa.Function, a []Value) Value {
+	r := a[0].(*ReflV)
+	if t, ok := r.get().(*Term); ok && !r.zero && t.sort == 0 {
+		return t
+	}
+	in.unsupported("reflect.Value.Bool on non-bool")
+	return nil
+}
+
+func iReflNumField(in *Interp, fn *ssa.Function, a []Value) Value {
+	r := a[0].(*ReflV)
+	if st, ok := r.typ.Underlying().(*types.Struct); ok && !r.zero {
+		return in.intTerm(st.NumFields())
+	}
+	panic(goPanic{msg: "panic: reflect: call of reflect.Value.NumField on non-struct Value", fn: "reflect.Value.NumField"})
+}
+
+func iReflField(in *Interp, fn *ssa.Function, a []Value) Value {
+	r := a[0].(*ReflV)
+	i := in.intOf(a[1], "reflect field index")
+	st, ok := r.typ.Underlying().(*types.Struct)
+	if !ok || r.zero || i < 0 || i >= st.NumFields() {
+		panic(goPanic{msg: "panic: reflect: Field index out of range", fn: "reflect.Value.Field"})
+	}
+	if r.ptr != nil {
+		p := r.ptr.sub(i)
+		return &ReflV{ptr: &p, typ: st.Field(i).Type()}
+	}
+	return &ReflV{val: r.val.(*StructV).f[i], typ: st.Field(i).Type()}
+}
+
+func iReflIndex(in *Interp, fn *ssa.Function, a []Value) Value {
+	r := a[0].(*ReflV)
+	i := in.intOf(a[1], "reflect index")
+	switch v := r.get().(type) {
+	case SliceV:
+		if i < 0 || i >= v.len {
+			panic(goPanic{msg: "panic: reflect: slice index out of range", fn: "reflect.Value.Index"})
+		}
+		p := PtrV{obj: v.arr, path: []int{v.off + i}}
+		return &ReflV{ptr: &p, typ: r.typ.Underlying().(*types.Slice).Elem()}
+	case StrV:
+		if i < 0 || i >= len(v.b) {
+			panic(goPanic{msg: "panic: reflect: string index out of range", fn: "reflect.Value.Index"})
+		}
+		return &ReflV{val: v.b[i], typ: types.Typ[types.Uint8]}
+	}
+	in.unsupported("reflect.Value.Index")
+	return nil
+}
+
+func iReflIsZero(in *Interp, fn *ssa.Function, a []Value) Value {
+	r := a[0].(*ReflV)
+	if r.zero {
+		panic(goPanic{msg: "panic: reflect: call of reflect.Value.IsZero on zero Value", fn: "reflect.Value.IsZero"})
+	}
+	return in.valueEq(r.get(), in.zero(r.typ))
+}
+
+// reflect.DeepEqual on interpreter values (pointers compare by pointee, with a visited set).
+func iDeepEqual(in *Interp, fn *ssa.Function, a []Value) Value {
+	x, y := a[0].(IfaceV), a[1].(IfaceV)
+	return in.deepEq(x, y, map[[2]*Obj]bool{}, 0)
+}
+
+func (in *Interp) deepEq(a, b Value, seen map[[2]*Obj]bool, depth int) *Term {
+	if depth > 50 {
+		in.unsupported("reflect.DeepEqual: structure too deep")
+	}
+	switch x := a.(type) {
+	case IfaceV:
+		y, ok := b.(IfaceV)
+		if !ok {
+			return in.tt.tF
+		}
+		if x.t == nil || y.t == nil {
+			return in.tt.Bool(x.t == nil && y.t == nil)
+		}
+		if !types.Identical(x.t, y.t) {
+			return in.tt.tF
+		}
+		return in.deepEq(x.v, y.v, seen, depth+1)
+	case PtrV:
+		y, ok := b.(PtrV)
+		if !ok {
+			return in.tt.tF
+		}
+		if x.isNil() || y.isNil() {
+			return in.tt.Bool(x.isNil() && y.isNil())
+		}
+		if ptrEq(x, y) {
+			return in.tt.tT
+		}
+		k := [2]*Obj{x.obj, y.obj}
+		if seen[k] {
+			return in.tt.tT
+		}
+		seen[k] = true
+		return in.deepEq(x.load(), y.load(), seen, depth+1)
+	case *StructV:
+		y, ok := b.(*StructV)
+		if !ok || len(x.f) != len(y.f) {
+			return in.tt.tF
+		}
+		cs := []*Term{}
+		for i := range x.f {
+			c := in.deepEq(x.f[i], y.f[i], seen, depth+1)
+			if c.IsFalse() {
+				return c
+			}
+			cs = append(cs, c)
+		}
+		return in.tt.And(cs...)
+	case *ArrayV:
+		y, ok := b.(*ArrayV)
+		if !ok || len(x.e) != len(y.e) {
+			return in.tt.tF
+		}
+		cs := []*Term{}
+		for i := range x.e {
+			c := in.deepEq(x.e[i], y.e[i], seen, depth+1)
+			if c.IsFalse() {
+				return c
+			}
+			cs = append(cs, c)
+		}
+		return in.tt.And(cs...)
+	case SliceV:
+		y, ok := b.(SliceV)
+		if !ok {
+			return in.tt.tF
+		}
+		if (x.arr == nil) != (y.arr == nil) || x.len != y.len {
+			return in.tt.tF
+		}
+		xe, ye := in.sliceElems(x), in.sliceElems(y)
+		cs := []*Term{}
+		for i := range xe {
+			c := in.deepEq(xe[i], ye[i], seen, depth+1)
+			if c.IsFalse() {
+				return c
+			}
+			cs = append(cs, c)
+		}
+		return in.tt.And(cs...)
+	case *MapV:
+		y, ok := b.(*MapV)
+		if !ok {
+			return in.tt.tF
+		}
+		if x == nil || y == nil {
+			return in.tt.Bool(x == y)
+		}
+		if len(x.keys) != len(y.keys) {
+			return in.tt.tF
+		}
+		in.unsupported("reflect.DeepEqual on non-empty maps")
+	case FuncV:
+		y, ok := b.(FuncV)
+		return in.tt.Bool(ok && x.fn == nil && y.fn == nil)
+	}
+	return in.valueEq(a, b)
+}
+
+// ---- go-runewidth: never interpreted (its tables are package-level state the engine does not build)
+
+func iRuneWidth(in *Interp, fn *ssa.Function, a []Value) Value {
+	r := a[len(a)-1].(*Term)
+	if r.op == OpConst {
+		return in.intTerm(runewidthRune(rune(signExt(r.val, r.sort))))
+	}
+	if in.branch(in.tt.Bin(OpUlt, in.tt.Resize(r, 64, true), in.tt.Const(64, 0x80))) {
+		isP := in.tt.And(in.tt.Bin(OpSle, in.tt.Const(r.sort, 0x20), r), in.tt.Bin(OpSle, r, in.tt.Const(r.sort, 0x7e)))
+		return in.tt.Ite(isP, in.tt.Const(64, 1), in.tt.Const(64, 0))
+	}
+	in.unsupported("runewidth.RuneWidth of a symbolic non-ASCII rune")
+	return nil
+}
+
+func iRuneWidthM(in *Interp, fn *ssa.Function, a []Value) Value {
+	in.logRunewidthGlobal("rd")
+	return iRuneWidth(in, fn, a)
+}
+
+func iStringWidthM(in *Interp, fn *ssa.Function, a []Value) Value {
+	return iStringWidth(in, fn, a[1:])
+}
+
+func iCreateLUT(in *Interp, fn *ssa.Function, a []Value) Value {
+	in.logRunewidthGlobal("wr")
+	return nil
+}
+
+// the package-level condition object of go-runewidth (read by every width computation, written by CreateLUT)
+func (in *Interp) logRunewidthGlobal(kind string) {
+	if !in.traceOn {
+		return
+	}
+	in.events = append(in.events, Event{Thread: in.curThread, Kind: kind, Obj: -1000000, Path: "runewidth.DefaultCondition", PCLen: len(in.pc)})
+}
+
+// ---- strconv on concrete floats / symbolic quoting
+
+func iFormatFloat(in *Interp, fn *ssa.Function, a []Value) Value {
+	f, ok := a[0].(*OpaqueV)
+	if !ok || f.kind != "float" {
+		in.unsupported("strconv.FormatFloat of a non-concrete float")
+	}
+	fmtc := byte(in.intOf(a[1], "FormatFloat fmt"))
+	prec := in.intOf(a[2], "FormatFloat prec")
+	bits := in.intOf(a[3], "FormatFloat bitSize")
+	return in.mkStr(strconvFormatFloat(f.data.(float64), fmtc, prec, bits))
+}
+
+func iStrconvQuote(in *Interp, fn *ssa.Function, a []Value) Value {
+	bs, ok := in.quoteSym(a[0].(StrV))
+	if !ok {
+		in.unsupported("strconv.Quote of symbolic non-ASCII bytes")
+	}
+	return StrV{b: bs}
+}
+
+// quoteSym: strconv.Quote for strings whose symbolic bytes are ASCII (forks on the byte classes).
+func (in *Interp) quoteSym(s StrV) ([]*Term, bool) {
+	if cs, ok := concreteString(s); ok {
+		return in.mkStr(strconvQuote(cs)).b, true
+	}
+	return in.quoteSymForce(s)
+}
+
+func (in *Interp) quoteSymForce(s StrV) ([]*Term, bool) {
+	out := []*Term{in.tt.b8['"']}
+	eq := func(b *Term, c byte) bool { return in.branch(in.tt.Bin(OpEq, b, in.tt.b8[c])) }
+	for _, b := range s.b {
+		if !in.branch(in.tt.Bin(OpUlt, b, in.tt.b8[0x80])) {
+			return nil, false
+		}
+		switch {
+		case eq(b, '"'):
+			out = append(out, in.mkStr("\\\"").b...)
+		case eq(b, '\\'):
+			out = append(out, in.mkStr("\\\\").b...)
+		case eq(b, 7):
+			out = append(out, in.mkStr("\\a").b...)
+		case eq(b, 8):
+			out = append(out, in.mkStr("\\b").b...)
+		case eq(b, 12):
+			out = append(out, in.mkStr("\\f").b...)
+		case eq(b, 10):
+			out = append(out, in.mkStr("\\n").b...)
+		case eq(b, 13):
+			out = append(out, in.mkStr("\\r").b...)
+		case eq(b, 9):
+			out = append(out, in.mkStr("\\t").b...)
+		case eq(b, 11):
+			out = append(out, in.mkStr("\\v").b...)
+		case in.branch(in.tt.Or(in.tt.Bin(OpUlt, b, in.tt.b8[0x20]), in.tt.Bin(OpEq, b, in.tt.b8[0x7f]))):
+			hexd := func(n *Term) *Term {
+				return in.tt.Ite(in.tt.Bin(OpUlt, n, in.tt.b8[10]), in.tt.Bin(OpAdd, n, in.tt.b8['0']), in.tt.Bin(OpAdd, n, in.tt.b8['a'-10]))
+			}
+			out = append(out, in.mkStr("\\x").b...)
+			out = append(out, hexd(in.tt.Bin(OpLShr, b, in.tt.b8[4])), hexd(in.tt.Bin(OpAnd, b, in.tt.b8[0x0f])))
+		default:
+			out = append(out, b)
+		}
+	}
+	return append(out, in.tt.b8['"']), true
+}
